@@ -45,6 +45,7 @@ type Solver struct {
 	Log        io.Writer // optional transcript
 	dead       bool
 	pendingPop bool
+	extraFrames int
 }
 
 func NewSolver(kind string, timeoutMS int) (*Solver, error) {
@@ -280,8 +281,85 @@ func (s *Solver) drainVerdict() {
 // once the model has been read (or is not needed).
 func (s *Solver) PopModel() {
 	if s.pendingPop {
+		for ; s.extraFrames > 0; s.extraFrames-- {
+			s.send("(pop 1)")
+		}
 		s.send("(pop 1)")
 		s.pendingPop = false
+	}
+}
+
+// EvalBV returns the model value of a bit-vector term (after a Sat, inside the model frame).
+func (s *Solver) EvalBV(c *Ctx, t *Term) (*big.Int, error) {
+	if t.IsConst() {
+		return constBig(t), nil
+	}
+	s.define(c, t)
+	s.send("(get-value (" + t.ref() + "))")
+	txt, err := s.readSexp()
+	if err != nil {
+		return nil, err
+	}
+	if strings.HasPrefix(txt, "(error") {
+		return nil, fmt.Errorf("get-value: %s", txt)
+	}
+	sx, _ := parseSexp(txt, 0)
+	if sx == nil || len(sx.list) != 1 || len(sx.list[0].list) != 2 {
+		return nil, fmt.Errorf("get-value: unexpected answer %.80s", txt)
+	}
+	mv, ok := sexpToVal(sx.list[0].list[1])
+	if !ok || mv.V == nil {
+		return nil, fmt.Errorf("get-value: unparsed value %.80s", txt)
+	}
+	return mv.V, nil
+}
+
+// TryPin adds t inside the pending model frame if the model stays satisfiable
+// (a nested frame is kept in that case and removed by PopModel); it reports
+// whether the constraint was kept.
+func (s *Solver) TryPin(c *Ctx, t *Term) bool {
+	if !s.pendingPop || s.dead {
+		return false
+	}
+	s.define(c, t)
+	s.send("(push 1)")
+	s.send("(assert " + t.ref() + ")")
+	s.send("(check-sat)")
+	for {
+		line, err := s.readLine()
+		if err != nil {
+			s.dead = true
+			return false
+		}
+		if line == "" {
+			continue
+		}
+		if line == "sat" {
+			s.extraFrames++
+			return true
+		}
+		if line == "unsat" || line == "unknown" || strings.HasPrefix(line, "timeout") {
+			s.send("(pop 1)")
+			// restore a model for the enclosing frame
+			s.send("(check-sat)")
+			for {
+				l2, err := s.readLine()
+				if err != nil {
+					s.dead = true
+					return false
+				}
+				if l2 == "sat" || l2 == "unsat" || l2 == "unknown" {
+					break
+				}
+			}
+			return false
+		}
+		if strings.HasPrefix(line, "(error") {
+			s.Errors = append(s.Errors, line)
+			s.drainVerdict()
+			s.send("(pop 1)")
+			return false
+		}
 	}
 }
 
